@@ -9,7 +9,7 @@ use serde_json::{json, Value};
 use std::io::{Cursor, Write};
 use vph::refdec;
 
-pub const RULE: &str = "(1) full product grid depth {0,1..32,33,u32::MAX} × channels {0,1..8,9,255} × rate {0,1,8000,44100,65535,655350,2^20-1,2^20,u32::MAX} × total {none,0,1,ch-1,ch,ch·w,2^36-1,2^36,u64::MAX…} for the byte, sample and channel writer constructors; (2) every Options setter over boundary values; (3) FlacStreamWriter::write parameter grid; (4) every documented value alone and every pair of documented values across axes (depth 1..32, channels 1..8, rates, LPC order none/1..32, partition order 0..15, block sizes) encodes a short signal that the independent decoder decodes back; (5) declared-length contract: for D ∈ {1,16,17,40} PCM frames, supply ∈ {D−1, D, D+1, 2D}, every ≤2-cut write history, three writers, plus undeclared; both build profiles";
+pub const RULE: &str = "(1) full product grid depth {0,1..32,33,u32::MAX} × channels {0,1..8,9,255} × rate {0,1,8000,44100,65535,655350,2^20-1,2^20,u32::MAX} × total {none,0,1,ch-1,ch,ch·w,2^36-1,2^36,u64::MAX…} for the byte, sample and channel writer constructors; (2) every Options setter over boundary values; (3) FlacStreamWriter::write parameter grid; (4) every documented value alone and every pair of documented values across axes (depth 1..32, channels 1..8, rates, LPC order none/1..32, partition order 0..15, block sizes) encodes a short signal that the independent decoder decodes back; (5) declared-length contract: for D ∈ {1,16,17,40} PCM frames, supply ∈ {D−1, D, D+1, 2D}, every ≤2-cut write history, three writers, plus undeclared; both build profiles; (6) FlacChannelWriter::write with malformed channel sets (0..9 channels given to 1/2/3/8-channel writers, unequal / empty channel lengths) at each position of a 3-call history: an error or success, never a panic; (7) the new_cdda constructors of the three writers produce the same file / the same error class as new(44100 Hz, 16 bit, 2 channels) for undeclared, exact, short and long declared totals";
 pub const ASSUMPTIONS: &[&str] = &["'works' is judged on one fixed signal per parameter vector (signal variety: C01)", "triples of documented values are covered only through C01's option lattice"];
 pub fn bounds(quick: bool) -> Value {
     json!({"grid": "full product", "pairs": if quick { "all cross-axis pairs, block sizes {16,17,192,4096}" } else { "all cross-axis pairs, block sizes {16,17,192,4096,65535}" }, "history_cuts": 2})
@@ -411,7 +411,111 @@ fn stream_writer(ctx: &Ctx, acc: &mut Acc) {
     }
 }
 
+
+/// FlacChannelWriter::write with malformed channel sets (wrong number of channels, channels of unequal length, empty
+/// channels) in every position of a 3-call history, and the `new_cdda` constructors against `new(.., 44100, 16, 2, ..)`.
+/// Returns Err(panic message) or Ok(outcome label).
+fn channel_call(ch: u8, given: usize, lens: &[usize], at: usize) -> Result<String, String> {
+    use flac_codec::encode::FlacChannelWriter;
+    guarded(|| -> String {
+        let mut out = std::io::Cursor::new(Vec::new());
+        let o = Opt::base16().to_options().unwrap();
+        let mut w = match FlacChannelWriter::new(&mut out, o, 44100, 16, ch, None) {
+            Ok(w) => w,
+            Err(e) => return format!("ctor-refused:{e:?}"),
+        };
+        let good: Vec<Vec<i32>> = (0..ch as usize).map(|c| (0..20).map(|i| i * 3 + c as i32).collect()).collect();
+        let bad: Vec<Vec<i32>> = (0..given).map(|c| (0..lens[c % lens.len()]).map(|i| i as i32 - c as i32).collect()).collect();
+        let mut label = String::new();
+        for call in 0..3 {
+            let r = if call == at { w.write(bad.iter().map(|v| v.as_slice()).collect::<Vec<_>>()) } else { w.write(good.iter().map(|v| v.as_slice()).collect::<Vec<_>>()) };
+            label.push_str(if r.is_ok() { "ok," } else { "err," });
+        }
+        label.push_str(if w.finalize().is_ok() { "fin-ok" } else { "fin-err" });
+        label
+    })
+}
+fn channel_calls(ctx: &Ctx, acc: &mut Acc) {
+    for ch in [1u8, 2, 3, 8] {
+        for given in 0..=9usize {
+            for lens in [vec![20usize], vec![20, 19], vec![19, 20], vec![0], vec![20, 0], vec![1, 2, 3], vec![16, 17]] {
+                for at in 0..3usize {
+                    if !ctx.mine() {
+                        continue;
+                    }
+                    acc.states += 1;
+                    acc.executions += 1;
+                    acc.transitions += 4;
+                    match channel_call(ch, given, &lens, at) {
+                        Ok(l) => acc.outcome(format!("channel-call:{}:{l}", if given == ch as usize && lens.len() == 1 { "well-formed" } else { "malformed" })),
+                        Err(p) => acc.violation(format!("C15|channel-call|panic@{}", crate::core::panic_loc(&p)), format!("FlacChannelWriter({ch} ch).write with {given} channel(s) of lengths {lens:?} as call #{at}: panic: {p}"), json!({"kind":"channel-call","writer":"Channel","ch":ch,"given":given,"lens":lens,"at":at})),
+                    }
+                }
+            }
+        }
+    }
+    if ctx.shard == 0 {
+        for total in [None, Some(40u64), Some(39), Some(41)] {
+            acc.states += 1;
+            acc.executions += 1;
+            match cdda_equiv(total) {
+                Ok(Ok(())) => acc.outcome(format!("cdda-ctor:same:{}", total.is_some())),
+                Ok(Err(e)) => acc.violation("C15|cdda-constructor-differs".to_string(), format!("declared total {total:?}: {e}"), json!({"kind":"cdda-ctor","writer":"Sample","total":total})),
+                Err(p) => acc.violation(format!("C15|cdda-ctor|panic@{}", crate::core::panic_loc(&p)), format!("new_cdda with total {total:?}: panic: {p}"), json!({"kind":"cdda-ctor","writer":"Sample","total":total})),
+            }
+        }
+    }
+}
+
+/// the CD-DA shorthand constructors are the documented equivalent of (44100 Hz, 16 bit, 2 channels)
+fn cdda_equiv(total: Option<u64>) -> Result<Result<(), String>, String> {
+    use flac_codec::byteorder::LittleEndian;
+    use flac_codec::encode::{FlacByteWriter, FlacChannelWriter, FlacSampleWriter};
+    let pcm: Vec<i32> = (0..80).map(|i| (i * 37 % 2001) - 1000).collect();
+    guarded(|| -> Result<(), String> {
+                let o = || Opt::base16().to_options().unwrap();
+                let run_s = |cdda: bool| -> Result<Vec<u8>, String> {
+                    let mut out = std::io::Cursor::new(Vec::new());
+                    let t = total.map(|t| t * 2);
+                    let mut w = if cdda { FlacSampleWriter::new_cdda(&mut out, o(), t) } else { FlacSampleWriter::new(&mut out, o(), 44100, 16, 2, t) }.map_err(|e| format!("{e:?}"))?;
+                    w.write(&pcm).map_err(|e| format!("write:{e:?}"))?;
+                    w.finalize().map_err(|e| format!("finalize:{e:?}"))?;
+                    Ok(out.into_inner())
+                };
+                let run_b = |cdda: bool| -> Result<Vec<u8>, String> {
+                    use std::io::Write;
+                    let mut out = std::io::Cursor::new(Vec::new());
+                    let t = total.map(|t| t * 4);
+                    let bytes = crate::codec::pcm_bytes(&pcm, 16, false);
+                    let mut w: FlacByteWriter<_, LittleEndian> = if cdda { FlacByteWriter::new_cdda(&mut out, o(), t) } else { FlacByteWriter::new(&mut out, o(), 44100, 16, 2, t) }.map_err(|e| format!("{e:?}"))?;
+                    w.write_all(&bytes).map_err(|e| format!("write:{e}"))?;
+                    w.finalize().map_err(|e| format!("finalize:{e:?}"))?;
+                    Ok(out.into_inner())
+                };
+                let run_c = |cdda: bool| -> Result<Vec<u8>, String> {
+                    let mut out = std::io::Cursor::new(Vec::new());
+                    let chans = crate::codec::deinterleave(&pcm, 2);
+                    let mut w = if cdda { FlacChannelWriter::new_cdda(&mut out, o(), total) } else { FlacChannelWriter::new(&mut out, o(), 44100, 16, 2, total) }.map_err(|e| format!("{e:?}"))?;
+                    w.write([&chans[0][..], &chans[1][..]]).map_err(|e| format!("write:{e:?}"))?;
+                    w.finalize().map_err(|e| format!("finalize:{e:?}"))?;
+                    Ok(out.into_inner())
+                };
+                for (name, a, b) in [("sample", run_s(true), run_s(false)), ("byte", run_b(true), run_b(false)), ("channel", run_c(true), run_c(false))] {
+                    let same = match (&a, &b) {
+                        (Ok(x), Ok(y)) => x == y,
+                        (Err(x), Err(y)) => x.split(':').next() == y.split(':').next(),
+                        _ => false,
+                    };
+                    if !same {
+                        return Err(format!("{name} writer: new_cdda gives {:?}, new(44100, 16, 2) gives {:?}", a.as_ref().map(|v| v.len()), b.as_ref().map(|v| v.len())));
+                    }
+                }
+                Ok(())
+            })
+}
+
 pub fn run(ctx: &Ctx, acc: &mut Acc) {
+    channel_calls(ctx, acc);
     let t = std::time::Instant::now();
     grid(ctx, acc);
     acc.dim("cpu_ms_grid", t.elapsed().as_millis() as u64);
@@ -432,6 +536,15 @@ pub fn run(ctx: &Ctx, acc: &mut Acc) {
 pub fn replay(v: &Value) -> Option<(bool, String)> {
     let w = crate::codec::writer_from(v["writer"].as_str().unwrap_or(""));
     match v["kind"].as_str()? {
+        "channel-call" => {
+            let lens: Vec<usize> = v["lens"].as_array()?.iter().map(|x| x.as_u64().unwrap_or(0) as usize).collect();
+            let r = channel_call(v["ch"].as_u64()? as u8, v["given"].as_u64()? as usize, &lens, v["at"].as_u64()? as usize);
+            Some((r.is_err(), format!("{r:?}")))
+        }
+        "cdda-ctor" => {
+            let r = cdda_equiv(v["total"].as_u64());
+            Some((!matches!(r, Ok(Ok(()))), format!("{r:?}")))
+        }
         "ctor" => {
             let r = ctor(w, v["rate"].as_u64()? as u32, v["bps"].as_u64()? as u32, v["ch"].as_u64()? as u8, v["total"].as_u64());
             let sig = v["signature"].as_str().unwrap_or("");
